@@ -86,7 +86,7 @@ Qed.
 
 (* ---------------------------------------------------------------- with the three candidate repairs switched on *)
 Definition fixed_cfg : cfg := {| heap_cap := 256; snod_cap := 32; soft_max := 244; max_depth := 1024;
-                                 strict_names := true; canon_group_key := true; rc_rollback_fix := true |}.
+                                 strict_names := true; canon_group_key := true; rc_rollback_fix := true; cycle_is_error := true |}.
 Definition gof (h : list op) := run (step fixed_cfg) (init fixed_cfg) h.
 
 Lemma repairs_remove_witnesses :
@@ -103,7 +103,7 @@ Proof. intros c h g names S. apply no_dup_reach. unfold names_ok. rewrite S. ref
 
 (* not_too_deep: with the depth limit at 2, three nested groups cannot be read back *)
 Definition shallow_cfg : cfg := {| heap_cap := 256; snod_cap := 32; soft_max := 244; max_depth := 2;
-                                   strict_names := true; canon_group_key := true; rc_rollback_fix := true |}.
+                                   strict_names := true; canon_group_key := true; rc_rollback_fix := true; cycle_is_error := true |}.
 Definition h_deep : list op := [MkGroup (b "/a"); MkGroup (b "/a/b"); MkGroup (b "/a/b/c"); MkGroup (b "/a/b/c/d")].
 Lemma too_deep_refuted :
   adm shallow_cfg s_empty h_deep = true /\ all_ok (snd (run (step shallow_cfg) (init shallow_cfg) h_deep)) = true /\
